@@ -371,6 +371,11 @@ func runToBytes(id int, m *desc.Msg, extra ...string) {
 	if viaTpl {
 		extra = append(extra, "entries-from-AsTemplate")
 	}
+	for _, it := range m.Trailer {
+		if it.Kind == 'K' && it.Tag == m.CsTag {
+			extra = append(extra, "trailer-lists-checksum")
+		}
+	}
 	if reser {
 		rec.Case = "TOBYTES " + m.Enc()
 		extra = append(extra, "reserialized-after-change")
@@ -664,6 +669,8 @@ func main() {
 		modeDamage(root, *n)
 	case "lookup":
 		modeLookup(root, *n)
+	case "parallel":
+		modeParallel(root, *n)
 	default:
 		fmt.Fprintln(os.Stderr, "unknown mode")
 		os.Exit(2)
@@ -689,6 +696,7 @@ func modeToBytes(root *rng.R, n int) {
 		o.AllowEmptyVals = r.Chance(1, 6)
 		o.PopulateProb = []int{30, 60, 90}[r.Intn(3)]
 		o.LongLists = true
+		o.TrailerCheckSum = true
 		g := gen.New(r, o)
 		runToBytes(id, g.Message())
 		id++
